@@ -29,6 +29,7 @@ r1,r2,r3,r4,r5,r6,r7,r8,r9=[rows(i) for i in range(1,10)]
 r11=rows(11); n11,m11=nm(r11) if False else (len(r11),sum('missed at first' in x for x in r11))
 r12=rows(12); n12,m12=len(r12),sum('missed at first' in x for x in r12)
 r13=rows(13); n13,m13=len(r13),sum('missed at first' in x for x in r13)
+r15=rows(15); n15,m15=len(r15),sum('missed at first' in x for x in r15)
 def nm(r): return len(r),sum('missed at first' in x for x in r)
 (n1,m1),(n2,m2),(n3,m3),(n4,m4),(n5,m5),(n6,m6),(n7,m7),(n8,m8),(n9,m9)=[nm(r) for r in (r1,r2,r3,r4,r5,r6,r7,r8,r9)]
 own=open('/verif/mutants/RESULTS.txt').read().strip().split('\n')
@@ -194,6 +195,16 @@ alphabet.
 | seed | property | detected by (scenario / clause) |
 |---|---|---|
 '''%(n13,n13-m13,m13)+'\n'.join(r13)+'''
+
+(Round 14 was the second false-alarm probe of section 8.4.)
+
+**Round 15** (%d changes; the brief of round 8 once more - a piece of real work with one honest
+mistake - with the pieces of work of round 8 excluded): %d detected as the checks stood, %d missed
+at first.
+
+| seed | property | detected by (scenario / clause) |
+|---|---|---|
+'''%(n15,n15-m15,m15)+'\n'.join(r15)+'''
 
 What changed in response, as a rule rather than case by case: every property whose code handles a
 length, a count or an index now has a *scale* scenario next to its small-scope product, in which
